@@ -267,7 +267,9 @@ CLAIMED['C02'] = dict(
    note=LAW_NOTE + "Birth densities, the eigen-direction choice and the bounded eigenvector's box intersections are tied by correspondence only. "
         "Source tie (Props/C02_src.v): the public wrappers BaseProposal.jump and BaseProposal.logpdf as written in /repo's base.py today are "
         "translated on every run (tools/py2coq.py) to the condition under which each hands over to the family's _jump / _logpdf, and proved "
-        "equal to each other and to the model's clock for every state: a density is reported exactly for the moves that are drawn.",
+        "equal to each other and to the model's clock for every state: a density is reported exactly for the moves that are drawn; and the "
+        "rejection loops of BoundedDiscrete._jump / BoundedNormal._jump regenerated by tools/py2coq_jump.py are bd_jump1 / bn_jump1, the "
+        "jumps whose law the cell and truncation theorems describe.",
    technique="Coq proof over Reals (interval arithmetic of rounding cells with Flocq, telescoping sums, Coquelicot series, trigonometric identities) + vm_compute correspondence of the float instance",
    ref="DESIGN.md section 3, C02")
 
@@ -281,7 +283,10 @@ CLAIMED['C12'] = dict(
         "edges, thousands of consecutive misses), scales 1e-40..1e10 times the domain, boundary points and poles, all four solid-angle "
         "conventions; membership and refusal are also checked directly, and proposed_position along adaptive runs.",
    note=LAW_NOTE + "Binary64 effects at the faces (a wrapped angle of exactly 2 pi, cosines rounding outside [-1,1], the bounded eigenvector's "
-        "isclose tolerance) are explored on the implementation only.",
+        "isclose tolerance) are explored on the implementation only. Source tie (Props/C12_src.v): the scalar membership test of "
+        "BoundedNormal.__contains__, the acceptance test of BoundedNormal._jump, one pass of the redraw loop of BoundedDiscrete._jump and the "
+        "refusal at the top of each _jump are regenerated from /repo on every run (tools/py2coq_jump.py); the in-bounds, refusal and "
+        "never-the-current-integer theorems are restated and proved for the loops built from these generated pieces.",
    technique="Coq proof (induction over draw lists, interval reasoning over Reals) + vm_compute correspondence of the float instance",
    ref="DESIGN.md section 3, C12")
 
@@ -295,7 +300,9 @@ CLAIMED['C11'] = dict(
         "five in-model families incl. a non-symmetric one, betas < 1): both composite densities and the recorded acceptance ratio "
         "against td_logpdf / bd_logpmf1 / the MH kernel under vm_compute, and directly against the formula evaluated with scipy and "
         "exact binomials.",
-   note=LAW_NOTE + "That numpy's choice(replace=False) is uniform over d-subsets is a premise.",
+   note=LAW_NOTE + "That numpy's choice(replace=False) is uniform over d-subsets is a premise. Source tie (Props/C11_src.v): one pass of the redraw "
+        "loop of BoundedDiscrete._jump (the index proposal) as written in /repo today is regenerated on every run (tools/py2coq_jump.py) and "
+        "proved to be the model's pass, and its iteration to the first kept draw to be bd_jump1, whose law is the mass in the ratio.",
    technique="Coq proof over Reals (factorial algebra, exp/ln, Rmin) + vm_compute correspondence of the float instance",
    ref="DESIGN.md section 3, C11")
 
